@@ -16,6 +16,9 @@ import (
 
 	"verif/mc"
 	_ "verif/props"
+	"verif/sched"
+	"verif/vmap"
+	"verif/vrand"
 )
 
 func main() {
@@ -82,12 +85,24 @@ func main() {
 		func() {
 			defer func() {
 				if e := recover(); e != nil {
+					if fb, ok := e.(sched.ForeignBlock); ok {
+						// the code under test blocks in a primitive the cooperative scheduler does not model: the rest of
+						// the unit is not decided (reported as a cap), and nothing is reported as a violation
+						mc.Cur = nil
+						vrand.Enabled, vrand.Bounded, vmap.Enabled = false, false, false
+						r.Cap("unit abandoned, not decided: " + fb.Error())
+						return
+					}
 					// A panic escaping a unit is a harness error (implementation panics
 					// are caught by the harness and judged there).
 					fmt.Fprintf(os.Stderr, "HARNESS-PANIC unit=%s: %v\n%s\n", u.Name, e, debug.Stack())
 					os.Exit(3)
 				}
 			}()
+			if u.Procs > 0 && u.Serial {
+				old := runtime.GOMAXPROCS(u.Procs)
+				defer runtime.GOMAXPROCS(old)
+			}
 			u.Run(r)
 		}()
 		p := r.Partial()
